@@ -557,14 +557,15 @@ def main(argv):
     text, report = translate_kernels(repo)
     if write_if_changed(os.path.join(out, "Kernels.lean"), text):
         changed.append("Kernels.lean")
-    try:
-        import translate_facts
-        for fname, ftext, frep in translate_facts.generate(repo):
+    import importlib
+    fact_modules = ["translate_facts"] + sorted(f[:-3] for f in os.listdir(HERE)
+                                                if f.startswith("facts_") and f.endswith(".py"))
+    for mname in fact_modules:
+        mod = importlib.import_module(mname)
+        for fname, ftext, frep in mod.generate(repo):
             if write_if_changed(os.path.join(out, fname), ftext):
                 changed.append(fname)
             report["facts:" + fname] = frep
-    except ImportError:
-        pass
     write_if_changed(os.path.join(out, "report.json"), json.dumps(report, indent=1, sort_keys=True) + "\n")
     print(json.dumps({"changed": changed,
                       "untranslatable": [k for k, v in report.items() if isinstance(v, dict) and v.get("ok") is False]}))
